@@ -20,7 +20,7 @@ VALS = {
     'destination': [':1.7', ':1.8'],
     'arg0': ['x', '/a/b'],
     'arg1': ['p', 'q,r=s'],
-    'arg0path': ['/a/b', '/a/'],
+    'arg0path': ['/a/b', '/a/', '/a/b/'],
 }
 TYPE_NAMES = {1: 'method_call', 2: 'method_return', 3: 'error', 4: 'signal'}
 
@@ -66,7 +66,7 @@ BODIES = [
     ('ss', ['x', 'r']), ('ss', ['x', 'q,r=s']), ('ss', ['/a/b', 'q']),
     ('s', ['/a/b']), ('s', ['/a/b/']), ('s', ['/a/bc']),
     ('s', ['/a/']), ('s', ['/a']), ('s', ['/a/b/c']), ('us', [5, 'p']),
-    ('o', ['/a/b']),
+    ('o', ['/a/b']), ('s', ['/']), ('s', ['/a/b/c/']), ('s', ['']),
 ]
 
 
@@ -111,7 +111,8 @@ def rules(max_keys):
     out = []
     for n in range(0, max_keys + 1):
         for keys in itertools.combinations(KEYS, n):
-            for vals in itertools.product(*[range(2) for _ in keys]):
+            for vals in itertools.product(*[range(len(VALS[k]))
+                                            for k in keys]):
                 out.append({k: VALS[k][v] for k, v in zip(keys, vals)})
     return out
 
@@ -397,6 +398,15 @@ def argindex_messages(rule):
         base[i] = v
     out.append({'type': 4, 'fields': f, 'sig': 's' * len(base),
                 'body': list(base)})
+    for k in rule:
+        if k.endswith('path'):
+            i = int(k[3:-4])
+            # both ending in '/', either a prefix of the other; near misses
+            for other in ('/', '/a/', '/a/b/', '/a', '/ab/', ''):
+                b = list(base)
+                b[i] = other
+                out.append({'type': 4, 'fields': f, 'sig': 's' * len(b),
+                            'body': b})
     for i in idx:
         for wrong in ('z', '/b/'):
             b = list(base)
